@@ -37,6 +37,7 @@ def structures(tier):
     att = [['S1:2'], ['A', 'S1:2'], ['A', 'A', 'S1:2'], ['A', 'A', 'A', 'S1:2'], ['A', 'S1:1', 'A', 'S1:1'],
            ['L2', 'S1:2'], ['A', 'L1', 'S1:1'], ['L2', 'A', 'S1:1'], ['S1:1', 'L2', 'S1:1='], ['S1:1', 'Lc1', 'S1:1='],
            ['A', 'S1:1', 'Lc1', 'S1:1=']]
+    att += [['U', 'S1:2'], ['A', 'U', 'S1:1', 'U', 'S1:2'], ['S1:2t'], ['A', 'S1:1t', 'S1:1']]
     sel = [['S0:None'], ['S1:None'], ['S2:None'], ['A', 'S2:None']]
     if tier == 'thorough':
         att += [['A', 'S1:1', 'L2', 'S1:1='], ['S1:1', 'A', 'S1:1='], ['A', 'A', 'A', 'A', 'S1:1'], ['A', 'A', 'A', 'S1:3'], ['L2', 'L2', 'S1:1'], ['A', 'A', 'S1:1', 'A', 'S1:2']]
@@ -75,6 +76,11 @@ def run(ctx, st):
     ts = 1000
     ai = 0
     for it in st['items']:
+        if it == 'U':
+            # a stack-data record of the thread outside any sample window (the dump starts in the middle of a sample)
+            events.append(sweep.make_event(ts, [ctx.int('stray%d_%d' % (len(events), q)) for q in range(4)], TID, by_name['PERF_STK_UData']))
+            ts += 1
+            continue
         if it == 'A':
             addr = ctx.int('addr%d' % ai)
             events.append(_map_a(ctx, by_name, ts, ai, addr)); ts += 1
@@ -99,6 +105,8 @@ def run(ctx, st):
                 announced.append((a[0], a[1], len(events)))
         else:
             same_frames = it.endswith('=')        # this sample repeats the previous sample's frames
+            with_thd = it.endswith('t')               # thread info requested and recorded: it names a free thread
+            it = it.rstrip('t')
             d, n = it.rstrip('=')[1:].split(':')
             d = int(d)
             si = len(samples)
@@ -111,8 +119,12 @@ def run(ctx, st):
             flags = ctx.int('flags%d' % si, 16)
             ctx.assume((flags & 0x8) != 0)
             pe = by_name['PERF_Event']
+            if with_thd:
+                ctx.assume((flags & 0x1) != 0)
             start = sweep.make_event(sts, [flags, 7, 0, 0], TID, pe | 1)
             events.append(start)
+            if with_thd:
+                events.append(sweep.make_event(ts, [ctx.int('thd_pid%d' % si, 32), ctx.int('thd_tid%d' % si), 0, 0], TID, by_name['PERF_THD_Data'])); ts += 1
             events.append(sweep.make_event(ts, [ctx.int('hflags%d' % si, 9), N, 0, 0], TID, by_name['PERF_STK_UHdr'])); ts += 1
             words = []
             for j in range(d):
